@@ -54,7 +54,7 @@ fn verif_grid() {
     let pool5 = ["k=a v=1", "k=a v=2", "k=b v=1", "k=b v=", "k=c v=7"];
     for (bi, base) in sequences(&pool5, 4).into_iter().enumerate() {
         for (si, (p, d)) in plain.iter().enumerate() {
-            if base.len() == 4 && (bi + si) % 3 != 0 { continue; }
+            if base.len() == 4 && left_out(bi + si, 3) { continue; }
             let b1 = base.clone();
             g.case(&format!("plain-b{}-s{}", bi, si), move || check(T, p, d, &b1));
         }
@@ -65,7 +65,7 @@ fn verif_grid() {
     }
     // one engine refreshing its table line after line (follow mode): every shown table is the DISTINCT table of the lines so far
     for (bi, base) in sequences(&pool5, 4).into_iter().enumerate() {
-        if base.len() < 2 || (base.len() == 4 && bi % 4 != 0) { continue; }
+        if base.len() < 2 || (base.len() == 4 && left_out(bi, 4)) { continue; }
         for (si, (_, d)) in aggregate.iter().enumerate() {
             let b1 = base.clone();
             g.case(&format!("refresh-b{}-s{}", bi, si), move || {
